@@ -22,6 +22,7 @@ ASSUMPTIONS = ['simulated kernel calibrated; the PUB socket is a recorder (no tr
                'while their watcher is active (the statement says so)',
                'kill events naming child pids are ignored by the reconstruction']
 BUDGET = {'quick': 240, 'thorough': 1500}
+CASE_TIMEOUT = 180          # a LIVE history (real daemon, real grace periods) takes 20-60 s of wall clock
 CAP = 60
 KINDS = ['incr', 'decr', 'setnp', 'restart', 'reload', 'reloadseq', 'reloadterm', 'stop', 'start', 'kill',
          'extkill', 'selfexit', 'selfexit', 'sigexit', 'sigexit', 'check', 'check', 'advance', 'dieat', 'qpoint',
